@@ -27,7 +27,8 @@ ASSUMPTIONS = [
 ]
 OBLIGATIONS = {"m=1": 20, "m=2": 20, "ties": 20, "all-below": 20, "all-above": 20,
                "constant-ens": 20, "nan-obs": 20, "float": 20, "n=1": 10,
-               "long-record": 1}
+               "long-record": 1, "n==m": 10, "members-sorted": 30,
+               "members-reverse-sorted": 30, "forecasts-sorted-by-obs": 30}
 
 
 def crps_fn():
@@ -111,6 +112,13 @@ def gen_case(rng, tier, it):
         m = 2
     if kind == "n1":
         n = 1
+    # coincidences a random draw seldom produces: as many forecasts as members, and
+    # the smallest sizes
+    special = (it // len(kinds)) % 5
+    if special == 1 and kind not in ("m1", "m2", "n1"):
+        m = n
+    elif special == 2:
+        n = [2, 3, 2, 4][it % 4]
     L = 4
     lattice = True
     if kind in ("lattice4", "below", "above", "const", "m1", "m2", "n1", "nanobs",
@@ -164,6 +172,27 @@ def gen_case(rng, tier, it):
         y = rng.normal(size=n) * sc * rng.choice([0.1, 1, 5])
         X = Y = None
         tags.append("float")
+    # member order: as drawn, already sorted, reverse sorted (per forecast); forecasts
+    # ordered by their observation
+    order = (it // 3) % 4
+    if order == 1:
+        x = np.sort(x, axis=1)
+        if X is not None:
+            X = np.sort(X, axis=1)
+        tags.append("members-sorted")
+    elif order == 2:
+        x = np.sort(x, axis=1)[:, ::-1].copy()
+        if X is not None:
+            X = np.sort(X, axis=1)[:, ::-1].copy()
+        tags.append("members-reverse-sorted")
+    elif order == 3 and n >= 2:
+        o = np.argsort(y, kind="stable")
+        x, y = x[o], y[o]
+        if X is not None:
+            X, Y = X[o], Y[o]
+        tags.append("forecasts-sorted-by-obs")
+    if n == m and n >= 2:
+        tags.append("n==m")
     nanmask = None
     if kind == "nanobs" and n >= 2:
         nanmask = rng.random(n) < 0.3
